@@ -189,20 +189,61 @@ def ChunkOK (B : Nat) (bs : List Batch) : Prop :=
 theorem flatMap_cons' {α β : Type} (f : α → List β) (a : α) (l : List α) : (a :: l).flatMap f = f a ++ l.flatMap f := by
   simp [List.flatMap_cons]
 
+/-! ### the probing decision (repair D62) -/
+
+/-- the destination has confirmed the entry before `first + p`, or the question was answered before -/
+def Confirmed (c : SendCfg) (dec : Bool) (pi : Nat) : Prop := dec = true ∨ ∃ m, c.matchIdx = some m ∧ pi ≤ m
+
+theorem probe_false {c : SendCfg} {dec : Bool} {pi t : Nat} (h : Confirmed c dec pi) :
+    probeDecision c dec (some (pi, t)) = .ok false := by
+  unfold probeDecision
+  rcases h with h | ⟨m, hm, hle⟩
+  · simp [h]
+  · cases dec
+    · simp only [Bool.false_eq_true, if_false, hm]
+      have : ¬ m < pi := by omega
+      simp [this]
+    · simp
+
+theorem probe_true {c : SendCfg} {pi t m : Nat} (hm : c.matchIdx = some m) (hlt : m < pi) :
+    probeDecision c false (some (pi, t)) = .ok true := by
+  unfold probeDecision
+  simp [hm, hlt]
+
+theorem probe_ok {c : SendCfg} {dec : Bool} (prev : Option (Nat × Nat)) (h : dec = true ∨ c.matchIdx.isSome = true) :
+    ∃ b, probeDecision c dec prev = .ok b := by
+  unfold probeDecision
+  rcases h with h | h
+  · simp [h]
+  · cases dec
+    · simp only [Bool.false_eq_true, if_false]
+      cases prev with
+      | none => exact ⟨_, rfl⟩
+      | some q =>
+        obtain ⟨pi, t⟩ := q
+        obtain ⟨m, hm⟩ := Option.isSome_iff_exists.mp h
+        simp only [hm]
+        exact ⟨_, rfl⟩
+    · simp
+
 /-- **Loop lemma.** Without cut-off and without disconnect, from `next = first + p` (`1 ≤ p ≤ length`) the loop
-terminates by itself, sends the log suffix from position `p` batch by batch, and leaves `nextIndex = last + 1`. -/
+terminates by itself, sends the log suffix from position `p` batch by batch, and leaves `nextIndex = last + 1` —
+provided the destination has confirmed the entry before the first batch (`matchIndex ≥ first + p - 1`: a
+pipelined, not a probing run). -/
 theorem sendLoop_partition {first : Nat} {log : List Entry} (hne : log ≠ []) (h : IdxOK first log)
     (c : SendCfg) (hc : c.dropAfter = none) (snap : List (Option Bool)) :
-    ∀ (fuel p : Nat) (ss : Bool) (sent : Nat), 1 ≤ p → p ≤ log.length → log.length - p + (if ss then 2 else 1) ≤ fuel →
-      ∃ r, sendLoop c log fuel (first + p) ss false snap none sent = .ok r ∧ r.spin = false ∧
+    ∀ (fuel p : Nat) (ss : Bool) (sent : Nat) (dec : Bool), 1 ≤ p → p ≤ log.length →
+      log.length - p + (if ss then 2 else 1) ≤ fuel → Confirmed c dec (first + p - 1) →
+      ∃ r, sendLoop c log fuel (first + p) ss false snap none sent dec = .ok r ∧ r.spin = false ∧
         r.next = first + log.length ∧ r.batches.flatMap Batch.entries = log.drop p ∧
         r.msgs = r.batches.flatMap (render c.B c.term c.commit) ∧ r.snap = snap ∧
-        PrevOK log first p r.batches ∧ (ss = false → p = log.length → r.batches = []) ∧ ChunkOK c.B r.batches := by
+        PrevOK log first p r.batches ∧ (ss = false → p = log.length → r.batches = []) ∧ ChunkOK c.B r.batches ∧
+        (ss = true → r.batches ≠ []) := by
   intro fuel
   induction fuel with
-  | zero => intro p ss sent _ _ hf; split at hf <;> omega
+  | zero => intro p ss sent dec _ _ hf _; split at hf <;> omega
   | succ fuel ih =>
-    intro p ss sent hp1 hp2 hf
+    intro p ss sent dec hp1 hp2 hf hconf
     have hlast := lastIdx_of hne h
     have hlen : 1 ≤ log.length := List.length_pos_iff.mpr hne
     unfold sendLoop
@@ -229,13 +270,11 @@ theorem sendLoop_partition {first : Nat} {log : List Entry} (hne : log ≠ []) (
           List.drop_left
         rw [← hrest, List.drop_drop] at h1
         exact h1
-      obtain ⟨r, hr, hspin, hnext, hents, hmsgs, hsnap, hprev, _, _⟩ :=
-        ih (p + (takeBytes c.B 0 (log.drop p)).length) false
-          (match c.dropAfter with | _ => sent + 1) (by omega) hle (by split at hf <;> simp <;> omega)
+      have hpf : probeDecision c dec (some (first + p - 1, pe.term)) = .ok false := probe_false hconf
       rcases hcase with ⟨e, he1, hB, hiter⟩ | hiter
       · -- one over-sized entry: chunk burst
         rw [hiter]
-        simp only [hc, budgetDone, budgetNext]
+        simp only [hpf, hc, budgetDone, budgetNext]
         have hburst : ∀ (ms : List Msg) (n : Nat), sendBurst none n ms = (ms, n + ms.length) := by
           intro ms
           induction ms with
@@ -244,13 +283,13 @@ theorem sendLoop_partition {first : Nat} {log : List Entry} (hne : log ≠ []) (
         rw [hburst]
         simp only [Bool.false_eq_true, if_false]
         -- the recursive call: same loop with another `sent`
-        obtain ⟨r2, hr2, hspin2, hnext2, hents2, hmsgs2, hsnap2, hprev2, _, hck2⟩ :=
+        obtain ⟨r2, hr2, hspin2, hnext2, hents2, hmsgs2, hsnap2, hprev2, _, hck2, _⟩ :=
           ih (p + (takeBytes c.B 0 (log.drop p)).length) false
-            (sent + (render c.B c.term c.commit (Batch.chunked (some (first + p - 1, pe.term)) e)).length)
-            (by omega) hle (by split at hf <;> simp <;> omega)
+            (sent + (render c.B c.term c.commit (Batch.chunked (some (first + p - 1, pe.term)) e)).length) true
+            (by omega) hle (by split at hf <;> simp <;> omega) (Or.inl rfl)
         have hnx : first + p + (takeBytes c.B 0 (log.drop p)).length = first + (p + (takeBytes c.B 0 (log.drop p)).length) := by omega
         rw [hnx, hr2]
-        refine ⟨_, rfl, hspin2, hnext2, ?_, ?_, hsnap2, ?_, ?_, ?_⟩
+        refine ⟨_, rfl, hspin2, hnext2, ?_, ?_, hsnap2, ?_, ?_, ?_, fun _ => List.cons_ne_nil _ _⟩
         · simp only [flatMap_cons', Batch.entries, hents2, hdrop]
           rw [hrest, he1]
         · simp only [flatMap_cons', hmsgs2]
@@ -264,12 +303,12 @@ theorem sendLoop_partition {first : Nat} {log : List Entry} (hne : log ≠ []) (
           · subst hb; exact hB
           · exact hck2 b hb
       · rw [hiter]
-        simp only [hc, stillConnected, budgetDone, budgetNext, decide_true, Bool.not_true, Bool.false_eq_true, if_false]
-        obtain ⟨r2, hr2, hspin2, hnext2, hents2, hmsgs2, hsnap2, hprev2, _, hck2⟩ :=
-          ih (p + (takeBytes c.B 0 (log.drop p)).length) false (sent + 1) (by omega) hle (by split at hf <;> simp <;> omega)
+        simp only [hpf, hc, stillConnected, budgetDone, budgetNext, decide_true, Bool.not_true, Bool.false_eq_true, if_false]
+        obtain ⟨r2, hr2, hspin2, hnext2, hents2, hmsgs2, hsnap2, hprev2, _, hck2, _⟩ :=
+          ih (p + (takeBytes c.B 0 (log.drop p)).length) false (sent + 1) true (by omega) hle (by split at hf <;> simp <;> omega) (Or.inl rfl)
         have hnx : first + p + (takeBytes c.B 0 (log.drop p)).length = first + (p + (takeBytes c.B 0 (log.drop p)).length) := by omega
         rw [hnx, hr2]
-        refine ⟨_, rfl, hspin2, hnext2, ?_, ?_, hsnap2, ?_, ?_, ?_⟩
+        refine ⟨_, rfl, hspin2, hnext2, ?_, ?_, hsnap2, ?_, ?_, ?_, fun _ => List.cons_ne_nil _ _⟩
         · simp only [flatMap_cons', Batch.entries, hents2, hdrop]
           exact hrest.symm
         · simp only [flatMap_cons', hmsgs2]
@@ -292,12 +331,13 @@ theorem sendLoop_partition {first : Nat} {log : List Entry} (hne : log ≠ []) (
         | none => rw [List.getLast?_eq_none_iff] at hl; exact absurd hl hne
         | some pe =>
           rw [iterBatch_heartbeat hne h _ hl]
-          simp only [hc, stillConnected, budgetDone, budgetNext, decide_true, Bool.not_true, Bool.false_eq_true, if_false]
-          obtain ⟨r2, hr2, hspin2, hnext2, hents2, hmsgs2, hsnap2, hprev2, hemp, hck2⟩ :=
-            ih log.length false (sent + 1) hlen (Nat.le_refl _) (by simp at hf ⊢; omega)
+          have hpf : probeDecision c dec (some (first + log.length - 1, pe.term)) = .ok false := probe_false hconf
+          simp only [hpf, hc, stillConnected, budgetDone, budgetNext, decide_true, Bool.not_true, Bool.false_eq_true, if_false]
+          obtain ⟨r2, hr2, hspin2, hnext2, hents2, hmsgs2, hsnap2, hprev2, hemp, hck2, _⟩ :=
+            ih log.length false (sent + 1) true hlen (Nat.le_refl _) (by simp at hf ⊢; omega) (Or.inl rfl)
           rw [hr2]
           have hb := hemp rfl rfl
-          refine ⟨_, rfl, hspin2, hnext2, ?_, ?_, hsnap2, ?_, ?_, ?_⟩
+          refine ⟨_, rfl, hspin2, hnext2, ?_, ?_, hsnap2, ?_, ?_, ?_, fun _ => List.cons_ne_nil _ _⟩
           · simp [flatMap_cons', Batch.entries, hb]
           · simp only [flatMap_cons', hmsgs2]
           · refine ⟨⟨pe, ?_, rfl⟩, by simp [hb, PrevOK]⟩
@@ -312,17 +352,19 @@ end PSO.NodeSend
 
 namespace PSO.NodeSend
 
-/-- **No exception, any cut-off, any disconnect.**  In the regular region (`first < next ≤ last + 1`) the send
-loop returns a value for every fuel, every wall-clock budget and every disconnect point. -/
+/-- **No exception, any cut-off, any disconnect, probing or not.**  In the regular region
+(`first < next ≤ last + 1`) the send loop returns a value for every fuel, every wall-clock budget, every disconnect
+point and every `matchIndex` of the destination (the dict entry must exist: a leader holds one per destination). -/
 theorem sendLoop_ok {first : Nat} {log : List Entry} (hne : log ≠ []) (h : IdxOK first log) (c : SendCfg)
     (snap : List (Option Bool)) :
-    ∀ (fuel p : Nat) (ss : Bool) (budget : Option Nat) (sent : Nat), 1 ≤ p → p ≤ log.length →
-      ∃ r, sendLoop c log fuel (first + p) ss false snap budget sent = .ok r := by
+    ∀ (fuel p : Nat) (ss : Bool) (budget : Option Nat) (sent : Nat) (dec : Bool), 1 ≤ p → p ≤ log.length →
+      (dec = true ∨ c.matchIdx.isSome = true) →
+      ∃ r, sendLoop c log fuel (first + p) ss false snap budget sent dec = .ok r := by
   intro fuel
   induction fuel with
-  | zero => intro p ss budget sent _ _; exact ⟨_, rfl⟩
+  | zero => intro p ss budget sent dec _ _ _; exact ⟨_, rfl⟩
   | succ fuel ih =>
-    intro p ss budget sent hp1 hp2
+    intro p ss budget sent dec hp1 hp2 hm
     have hlast := lastIdx_of hne h
     have hlen : 1 ≤ log.length := List.length_pos_iff.mpr hne
     unfold sendLoop
@@ -341,43 +383,108 @@ theorem sendLoop_ok {first : Nat} {log : List Entry} (hne : log ≠ []) (h : Idx
           simp at this
           omega
         have hnx : first + p + (takeBytes c.B 0 (log.drop p)).length = first + (p + (takeBytes c.B 0 (log.drop p)).length) := by omega
+        obtain ⟨pb, hpb⟩ := probe_ok (c := c) (dec := dec) (some (first + p - 1, pe.term)) hm
         rcases hcase with ⟨e, _, _, hiter⟩ | hiter
         · rw [hiter]
-          simp only []
-          by_cases hb : budgetDone budget = true
-          · simp only [hb, if_true]; exact ⟨_, rfl⟩
-          · simp only [hb]
-            rw [hnx]
-            obtain ⟨r, hr⟩ := ih (p + (takeBytes c.B 0 (log.drop p)).length) false (budgetNext budget)
-              (sendBurst c.dropAfter sent (render c.B c.term c.commit (Batch.chunked (some (first + p - 1, pe.term)) e))).2
-              (by omega) hle
-            simp only [hr]; exact ⟨_, rfl⟩
-        · rw [hiter]
-          simp only []
-          by_cases hcn : (!stillConnected c.dropAfter (sent + 1)) = true
-          · simp only [hcn, if_true]; exact ⟨_, rfl⟩
-          · simp only [hcn]
+          simp only [hpb]
+          by_cases hp : pb = true
+          · simp only [hp, if_true]; exact ⟨_, rfl⟩
+          · simp only [hp]
             by_cases hb : budgetDone budget = true
             · simp only [hb, if_true]; exact ⟨_, rfl⟩
             · simp only [hb]
               rw [hnx]
-              obtain ⟨r, hr⟩ := ih (p + (takeBytes c.B 0 (log.drop p)).length) false (budgetNext budget) (sent + 1) (by omega) hle
+              obtain ⟨r, hr⟩ := ih (p + (takeBytes c.B 0 (log.drop p)).length) false (budgetNext budget)
+                (sendBurst c.dropAfter sent (render c.B c.term c.commit (Batch.chunked (some (first + p - 1, pe.term)) e))).2
+                true (by omega) hle (Or.inl rfl)
               simp only [hr]; exact ⟨_, rfl⟩
+        · rw [hiter]
+          simp only [hpb]
+          by_cases hcn : (!stillConnected c.dropAfter (sent + 1)) = true
+          · simp only [hcn, if_true]; exact ⟨_, rfl⟩
+          · simp only [hcn]
+            by_cases hp : pb = true
+            · simp only [hp, if_true]; exact ⟨_, rfl⟩
+            · simp only [hp]
+              by_cases hb : budgetDone budget = true
+              · simp only [hb, if_true]; exact ⟨_, rfl⟩
+              · simp only [hb]
+                rw [hnx]
+                obtain ⟨r, hr⟩ := ih (p + (takeBytes c.B 0 (log.drop p)).length) false (budgetNext budget) (sent + 1) true
+                  (by omega) hle (Or.inl rfl)
+                simp only [hr]; exact ⟨_, rfl⟩
       · have hpeq : p = log.length := by omega
         subst hpeq
         cases hl : log.getLast? with
         | none => rw [List.getLast?_eq_none_iff] at hl; exact absurd hl hne
         | some pe =>
           rw [iterBatch_heartbeat hne h _ hl]
-          simp only []
+          obtain ⟨pb, hpb⟩ := probe_ok (c := c) (dec := dec) (some (first + log.length - 1, pe.term)) hm
+          simp only [hpb]
           by_cases hcn : (!stillConnected c.dropAfter (sent + 1)) = true
           · simp only [hcn, if_true]; exact ⟨_, rfl⟩
           · simp only [hcn]
-            by_cases hb : budgetDone budget = true
-            · simp only [hb, if_true]; exact ⟨_, rfl⟩
-            · simp only [hb]
-              obtain ⟨r, hr⟩ := ih log.length false (budgetNext budget) (sent + 1) hlen (Nat.le_refl _)
-              simp only [hr]; exact ⟨_, rfl⟩
+            by_cases hp : pb = true
+            · simp only [hp, if_true]; exact ⟨_, rfl⟩
+            · simp only [hp]
+              by_cases hb : budgetDone budget = true
+              · simp only [hb, if_true]; exact ⟨_, rfl⟩
+              · simp only [hb]
+                obtain ⟨r, hr⟩ := ih log.length false (budgetNext budget) (sent + 1) true hlen (Nat.le_refl _) (Or.inl rfl)
+                simp only [hr]; exact ⟨_, rfl⟩
     · simp only [hcond]; exact ⟨_, rfl⟩
+
+/-- **A probing run (repair D62).**  To a destination that has NOT confirmed the entry before `first + p`
+(`matchIndex < first + p - 1`), without cut-off and disconnect, the loop sends exactly the first batch — the
+entries `takeBytes B (log[p..])`, or the single heartbeat when up to date — and leaves `nextIndex` right after it. -/
+theorem sendLoop_probe {first : Nat} {log : List Entry} (hne : log ≠ []) (h : IdxOK first log)
+    (c : SendCfg) (hc : c.dropAfter = none) (snap : List (Option Bool)) {m : Nat} (hm : c.matchIdx = some m)
+    (fuel p sent : Nat) (budget : Option Nat) (hp1 : 1 ≤ p) (hp2 : p ≤ log.length) (hlt : m < first + p - 1) :
+    ∃ r b, sendLoop c log (fuel + 1) (first + p) true false snap budget sent false = .ok r ∧ r.spin = false ∧
+      r.batches = [b] ∧ b.entries = takeBytes c.B 0 (log.drop p) ∧
+      r.next = first + p + b.entries.length ∧ r.msgs = render c.B c.term c.commit b ∧
+      PrevOK log first p [b] ∧ ChunkOK c.B [b] ∧ (∃ rest, log.drop p = b.entries ++ rest) := by
+  have hlast := lastIdx_of hne h
+  have hlen : 1 ≤ log.length := List.length_pos_iff.mpr hne
+  unfold sendLoop
+  simp only [hlast, Bool.or_true, Bool.true_or, Bool.or_false, if_true]
+  by_cases hlt' : p < log.length
+  · have hpe : ∃ pe, log[p - 1]? = some pe := by
+      have : p - 1 < log.length := by omega
+      exact ⟨log[p - 1], by simp [List.getElem?_eq_getElem this]⟩
+    obtain ⟨pe, hpe⟩ := hpe
+    obtain ⟨hes, ⟨rest, hrest⟩, hcase⟩ := iterBatch_entries (B := c.B) hne h hp1 hlt' (snap.head?.join) hpe
+    have hpt : probeDecision c false (some (first + p - 1, pe.term)) = .ok true := probe_true hm hlt
+    have hburst : ∀ (ms : List Msg) (n : Nat), sendBurst none n ms = (ms, n + ms.length) := by
+      intro ms
+      induction ms with
+      | nil => intro n; simp [sendBurst]
+      | cons m t iht => intro n; simp [sendBurst, stillConnected, iht]; omega
+    rcases hcase with ⟨e, he1, hB, hiter⟩ | hiter
+    · rw [hiter]
+      simp only [hpt, hc, hburst, if_true]
+      refine ⟨_, _, rfl, rfl, rfl, by simp [Batch.entries, he1], by simp [Batch.entries, he1], rfl, ?_, ?_, ?_⟩
+      · exact ⟨⟨pe, hpe, rfl⟩, trivial⟩
+      · intro b hb; simp at hb; subst hb; exact hB
+      · exact ⟨rest, by simp only [Batch.entries]; rw [← he1]; exact hrest⟩
+    · rw [hiter]
+      simp only [hpt, hc, stillConnected, decide_true, Bool.not_true, Bool.false_eq_true, if_false, if_true]
+      refine ⟨_, _, rfl, rfl, rfl, rfl, rfl, rfl, ?_, ?_, ?_⟩
+      · exact ⟨⟨pe, hpe, rfl⟩, trivial⟩
+      · intro b hb; simp at hb; subst hb; trivial
+      · exact ⟨rest, hrest⟩
+  · have hpeq : p = log.length := by omega
+    subst hpeq
+    cases hl : log.getLast? with
+    | none => rw [List.getLast?_eq_none_iff] at hl; exact absurd hl hne
+    | some pe =>
+      rw [iterBatch_heartbeat hne h _ hl]
+      have hpt : probeDecision c false (some (first + log.length - 1, pe.term)) = .ok true := probe_true hm hlt
+      simp only [hpt, hc, stillConnected, decide_true, Bool.not_true, Bool.false_eq_true, if_false, if_true]
+      refine ⟨_, _, rfl, rfl, rfl, by simp [Batch.entries, takeBytes], by simp [Batch.entries], rfl, ?_, ?_, ?_⟩
+      · refine ⟨⟨pe, ?_, rfl⟩, trivial⟩
+        rw [← List.getLast?_eq_getElem?]; exact hl
+      · intro b hb; simp at hb; subst hb; trivial
+      · exact ⟨[], by simp [Batch.entries]⟩
 
 end PSO.NodeSend
